@@ -164,4 +164,73 @@ def WFBody (ins : List InD) (nOut : Nat) : BodyD → Prop
   | .v2 (some r) => ins ≠ [] ∧ WFRct ins.length nOut (ringSize ins) r ∧ (match r with | .null => True | _ => ringSize ins ≠ 0)
 def WFTxD (d : TxD) : Prop :=
   u64 d.unlock ∧ (∀ i ∈ d.ins, WFIn i) ∧ (∀ o ∈ d.outs, WFOut o) ∧ WFBody d.ins d.outs.length d.body
+/-- well-shaped block description: u64 header numbers, 32-byte previous id, u32 nonce, well-shaped miner transaction, 32-byte hashes -/
+def WFHeaderD (h : HeaderD) : Prop := u64 h.major ∧ u64 h.minor ∧ u64 h.timestamp ∧ is32 h.prevId ∧ h.nonce < 2^32
+def WFBlockD (b : BlockD) : Prop := WFHeaderD b.hdr ∧ WFTxD b.miner ∧ all32 b.txHashes
+
+/-! The same layout once more, TABLE-DRIVEN: `specBaseT` / `specPrunableT` decide every type-dependent choice by membership in the
+tables above (`tagsRct`, `usesBulletproof`, `usesBulletproofPlus`, `bpCountIsVarint`, `usesClsag`, `pseudoOutsInPrunable`) applied to the
+type `tyOf r` of the description; proved equal to `specBase` / `specPrunable` in Props/C03 (`C03_spec_is_table_driven`), so that the tables
+compared with the regenerated source tables are the ones the layout actually follows. -/
+def tyOf : RctD → RctTy
+  | .null => .Null | .full .. => .Full | .simple .. => .Simple | .bulletproof .. => .Bulletproof
+  | .bulletproof2 .. => .Bulletproof2 | .clsag .. => .Clsag | .bpplus .. => .BulletproofPlus
+def RctD.fee : RctD → Nat
+  | .null => 0 | .full f .. => f | .simple f .. => f | .bulletproof f .. => f | .bulletproof2 f .. => f | .clsag f .. => f | .bpplus f .. => f
+def RctD.pseudoOuts : RctD → List B
+  | .simple _ po _ _ _ _ => po | .bulletproof _ _ _ _ _ po => po | .bulletproof2 _ _ _ _ _ po => po | .clsag _ _ _ _ _ po => po
+  | .bpplus _ _ _ _ _ po => po | _ => []
+/-- the encrypted-amount entries as byte strings (mask ‖ amount for the legacy form) -/
+def RctD.ecdhEntries : RctD → List B
+  | .null => [] | .full _ e _ _ _ => e.map specEcdhFull | .simple _ _ e _ _ _ => e.map specEcdhFull | .bulletproof _ e _ _ _ _ => e.map specEcdhFull
+  | .bulletproof2 _ e _ _ _ _ => e | .clsag _ e _ _ _ _ => e | .bpplus _ e _ _ _ _ => e
+def RctD.outPk : RctD → List B
+  | .null => [] | .full _ _ o _ _ => o | .simple _ _ _ o _ _ => o | .bulletproof _ _ o _ _ _ => o | .bulletproof2 _ _ o _ _ _ => o
+  | .clsag _ _ o _ _ _ => o | .bpplus _ _ o _ _ _ => o
+def RctD.rangeSigs : RctD → List RangeSigD | .full _ _ _ rs _ => rs | .simple _ _ _ _ rs _ => rs | _ => []
+def RctD.bps : RctD → List BpD | .bulletproof _ _ _ b _ _ => b | .bulletproof2 _ _ _ b _ _ => b | .clsag _ _ _ b _ _ => b | _ => []
+def RctD.bpps : RctD → List BppD | .bpplus _ _ _ b _ _ => b | _ => []
+def RctD.mgs : RctD → List MgD | .full _ _ _ _ mg => [mg] | .simple _ _ _ _ _ m => m | .bulletproof _ _ _ _ m _ => m | .bulletproof2 _ _ _ _ m _ => m | _ => []
+def RctD.clsags : RctD → List ClsagD | .clsag _ _ _ _ c _ => c | .bpplus _ _ _ _ c _ => c | _ => []
+
+def tagOfTy (t : RctTy) : B := match tagsRct.find? (fun p => p.2 = t) with | some p => [UInt8.ofNat p.1] | none => []
+def specBaseT (r : RctD) : B :=
+  let ty := tyOf r
+  tagOfTy ty ++ (if ty = .Null then [] else
+    varint r.fee ++ (if ty ∈ pseudoOutsInPrunable then [] else cat r.pseudoOuts) ++ cat r.ecdhEntries ++ cat r.outPk)
+def specPrunableT (r : RctD) : B :=
+  let ty := tyOf r
+  if ty = .Null then [] else
+  (if ty ∈ usesBulletproof then (if ty ∈ bpCountIsVarint then varint r.bps.length else u32le r.bps.length) ++ cat (r.bps.map specBp)
+   else if ty ∈ usesBulletproofPlus then varint r.bpps.length ++ cat (r.bpps.map specBpp)
+   else cat (r.rangeSigs.map specRangeSig)) ++
+  (if ty ∈ usesClsag then cat (r.clsags.map specClsag) else cat (r.mgs.map specMg)) ++
+  (if ty ∈ pseudoOutsInPrunable then cat r.pseudoOuts else [])
+
+/-! Wire content of each NAMED field of the records that Monero serialises field by field (`FIELD(..)` lists of rctTypes.h
+`Bulletproof`, `BulletproofPlus`, `boroSig`, `rangeSig`, cryptonote_basic.h `transaction_prefix`, `block_header`, `block`, crypto.h
+`signature`), for comparison of the field ORDER with the `impl_consensus_encoding!` invocations regenerated from /repo (Props/C03
+`C03_field_orders_are_monero`). Field names are those of the library's public structs (harness `desc.rs` prints every field by name). -/
+def bpField (p : BpD) : String → B
+  | "A" => p.A | "S" => p.S | "T1" => p.T1 | "T2" => p.T2 | "taux" => p.taux | "mu" => p.mu
+  | "L" => varint p.L.length ++ cat p.L | "R" => varint p.R.length ++ cat p.R
+  | "a" => p.a | "b" => p.b | "t" => p.t | _ => []
+def bppField (p : BppD) : String → B
+  | "A" => p.A | "A1" => p.A1 | "B" => p.Bk | "r1" => p.r1 | "s1" => p.s1 | "d1" => p.d1
+  | "L" => varint p.L.length ++ cat p.L | "R" => varint p.R.length ++ cat p.R | _ => []
+def boroSigField (r : RangeSigD) : String → B
+  | "s0" => cat r.s0 | "s1" => cat r.s1 | "ee" => r.ee | _ => []
+def rangeSigField (boroOrder : List String) (r : RangeSigD) : String → B
+  | "asig" => cat (boroOrder.map (boroSigField r)) | "Ci" => cat r.Ci | _ => []
+def sigField (s : B × B) : String → B
+  | "c" => s.1 | "r" => s.2 | _ => []
+def prefixField (d : TxD) : String → B
+  | "version" => varint d.version | "unlock_time" => varint d.unlock
+  | "inputs" => varint d.ins.length ++ cat (d.ins.map specIn) | "outputs" => varint d.outs.length ++ cat (d.outs.map specOut)
+  | "extra" => varint d.extra.length ++ d.extra | _ => []
+def headerField (h : HeaderD) : String → B
+  | "major_version" => varint h.major | "minor_version" => varint h.minor | "timestamp" => varint h.timestamp
+  | "prev_id" => h.prevId | "nonce" => u32le h.nonce | _ => []
+def blockField (b : BlockD) : String → B
+  | "header" => specHeader b.hdr | "miner_tx" => specTx b.miner | "tx_hashes" => varint b.txHashes.length ++ cat b.txHashes | _ => []
 end Spec
